@@ -1,5 +1,5 @@
 """Texts of MANIFEST.json per property."""
-HOOK_COMMITS = ["42f5bf3"]
+HOOK_COMMITS = ["42f5bf3", "8269423"]
 NOTES = ("Machine-checked proof in Coq 8.16.1. Each check rebuilds the Coq closure of coq/Props/<ID>.v, rebuilds the Go harness "
          "against /repo's working tree, runs implementation and Gallina model on the same generated cases and applies the violation "
          "protocol of DESIGN.md 2.4. known_findings.json lists genuine unrepaired defects (kind=known) and repaired ones (kind=fixed).")
